@@ -5,6 +5,8 @@ package props
 import (
 	"bytes"
 	"fmt"
+	"math/big"
+	"strings"
 	"testing"
 	"time"
 
@@ -392,3 +394,144 @@ func FuzzC04(f *testing.F) {
 		}
 	})
 }
+
+// ---- spellings with more than one reading -------------------------------------------------------------------
+//
+// Two families of number-like tokens are deliberately kept out of the text->binary generator because readers differ:
+// integers with leading zeros (`007`: a string to vanilla, 7 to a lenient reader) and literals outside the range of their
+// type (`128b`: a string to vanilla where a string is allowed, an error otherwise). "More than one reading" is not
+// "any reading": the parser may refuse the text, or produce the vanilla reading (the token as a String), or - for
+// leading zeros - the DECIMAL value with the type its suffix announces. An octal value, a clamped value, a wrapped
+// value or another type agrees with no reading of the grammar. Inside a typed array only numbers are possible.
+
+type C04Ambig struct {
+	Digits string `json:"digits"` // decimal digits, possibly with leading zeros
+	Neg    bool   `json:"neg"`
+	Suffix string `json:"suffix"` // "", b, s, l (either case)
+	Where  int    `json:"where"`  // 0 root, 1 list element, 2 compound value, 3 typed array element
+}
+
+func c04CheckAmbig(c C04Ambig) *pbt.Violation {
+	tok := c.Digits + c.Suffix
+	if c.Neg {
+		tok = "-" + tok
+	}
+	// the decimal reading
+	val, ok := new(big.Int).SetString(strings.TrimLeft(c.Digits, "0")+"", 10)
+	if !ok {
+		val = new(big.Int)
+	}
+	if c.Neg {
+		val.Neg(val)
+	}
+	tag, bits := byte(rn.Int), 32
+	switch strings.ToLower(c.Suffix) {
+	case "b":
+		tag, bits = rn.Byte, 8
+	case "s":
+		tag, bits = rn.Short, 16
+	case "l":
+		tag, bits = rn.Long, 64
+	}
+	lim := new(big.Int).Lsh(big.NewInt(1), uint(bits-1))
+	inRange := val.Cmp(lim) < 0 && val.Cmp(new(big.Int).Neg(lim)) >= 0
+	leadingZero := len(c.Digits) > 1 && c.Digits[0] == '0'
+	var text string
+	var alts []*rn.Tag
+	num := func() *rn.Tag { return &rn.Tag{Type: tag, I: val.Int64()} }
+	str := func() *rn.Tag { return &rn.Tag{Type: rn.String, S: []byte(tok)} }
+	wrap := func(v *rn.Tag) *rn.Tag {
+		switch c.Where {
+		case 1:
+			return &rn.Tag{Type: rn.List, Elem: v.Type, L: []*rn.Tag{v}}
+		case 2:
+			return &rn.Tag{Type: rn.Compound, K: [][]byte{[]byte("k")}, V: []*rn.Tag{v}}
+		}
+		return v
+	}
+	switch c.Where {
+	case 0:
+		text = tok
+	case 1:
+		text = "[" + tok + "]"
+	case 2:
+		text = "{k:" + tok + "}"
+	default:
+		// typed array of the suffix's type: only numbers are possible
+		switch tag {
+		case rn.Byte:
+			text = "[B;" + tok + "]"
+			if inRange {
+				alts = append(alts, &rn.Tag{Type: rn.ByteArray, B: []byte{byte(val.Int64())}})
+			}
+		case rn.Long:
+			text = "[L;" + tok + "]"
+			if inRange {
+				alts = append(alts, &rn.Tag{Type: rn.LongArray, Longs: []int64{val.Int64()}})
+			}
+		case rn.Int:
+			text = "[I;" + tok + "]"
+			if inRange {
+				alts = append(alts, &rn.Tag{Type: rn.IntArray, Ints: []int32{int32(val.Int64())}})
+			}
+		default:
+			return nil // no short arrays
+		}
+	}
+	if c.Where < 3 {
+		alts = append(alts, wrap(str()))
+		if inRange {
+			alts = append(alts, wrap(num()))
+		}
+	}
+	_ = leadingZero
+	doc, tt, err, pv, stack := snbtParse([]byte(text))
+	if pv != nil {
+		return pbt.V(pbt.PanicKey("c04.ambig", stack), "never a panic", "parsing %q panicked: %v\n%s", text, pv, stack)
+	}
+	if err != nil {
+		return nil
+	}
+	got, _, n, derr := rn.Decode(doc, true)
+	if derr != nil || n != len(doc) {
+		return pbt.V("c04.ambig.malformed", "every accepted text produces a well-formed document", "%q: output % x: reference reader: %v (consumed %d of %d)", text, clipB(doc), derr, n, len(doc))
+	}
+	if got.Type != tt {
+		return pbt.V("c04.ambig.tagtype", "the tag type announced for a text matches the document produced", "%q: TagType()=%d, document root %d", text, tt, got.Type)
+	}
+	for _, a := range alts {
+		if rn.Diff(a, got, rn.EqOpts{IgnoreEmptyListElem: true}) == "" {
+			return nil
+		}
+	}
+	return pbt.V("c04.ambig.reading", "the content of an accepted text agrees with an independent reading of the grammar (unsuffixed integers as Int; suffixes select the type; values are decimal and within the type's range)",
+		"%q was accepted as %s; readings of the grammar: refuse it, or %v", text, got, alts)
+}
+
+var c04Ambig = pbt.Register(pbt.Prop[C04Ambig]{
+	Name: "C04Ambig",
+	Gen: func(t *rapid.T) C04Ambig {
+		c := C04Ambig{Neg: rapid.IntRange(0, 3).Draw(t, "neg") == 0, Suffix: rapid.SampledFrom([]string{"", "", "b", "B", "s", "S", "l", "L"}).Draw(t, "suffix"), Where: rapid.IntRange(0, 3).Draw(t, "where")}
+		switch rapid.IntRange(0, 2).Draw(t, "cls") {
+		case 0: // leading zeros, incl. digits 8 and 9 and values that differ between octal and decimal
+			c.Digits = strings.Repeat("0", rapid.IntRange(1, 3).Draw(t, "zeros")) + rapid.StringMatching(`[0-9]{1,4}`).Draw(t, "digits")
+		case 1: // around the limits of every type
+			lim := rapid.SampledFrom([]string{"127", "128", "129", "255", "256", "32767", "32768", "65535", "65536", "2147483647", "2147483648", "2147483649", "4294967295", "4294967296", "9223372036854775807", "9223372036854775808", "9223372036854775809", "18446744073709551615", "18446744073709551616", "99999999999999999999999"}).Draw(t, "limit")
+			c.Digits = lim
+		default:
+			c.Digits = rapid.StringMatching(`[1-9][0-9]{0,11}`).Draw(t, "digits")
+		}
+		return c
+	},
+	Check: c04CheckAmbig,
+	Classify: func(c C04Ambig) (bool, []string, []byte) {
+		l := "ambig_limits"
+		if len(c.Digits) > 1 && c.Digits[0] == '0' {
+			l = "ambig_leading_zero"
+		}
+		return true, []string{l}, nil
+	},
+	Quick: 64000, Thorough: 1000000,
+})
+
+func TestC04Ambig(t *testing.T) { pbt.Run(t, c04Ambig) }
